@@ -4,8 +4,10 @@
 
 pub mod layout;
 pub mod ops;
+pub mod program;
 pub mod universe;
 
 pub use layout::*;
 pub use ops::*;
+pub use program::*;
 pub use universe::*;
